@@ -134,8 +134,7 @@ func buildSpecs() []*spec {
 	add(mk("types.TxReceipt", (*types.TxReceipt).ToBytes, (*types.TxReceipt).FromBytes))
 	add(mk("types.TransactionIndex", (*types.TransactionIndex).ToBytes, (*types.TransactionIndex).FromBytes))
 	add(mk("types.TxReceiptIndex", (*types.TxReceiptIndex).ToBytes, (*types.TxReceiptIndex).FromBytes))
-	add(mk("types.SavedTransaction", (*types.SavedTransaction).ToBytes, (*types.SavedTransaction).FromBytes,
-		nonNil(".Tx"))) // Repo.SaveTx, the only producer, always has the transaction; Tx == nil is probed by TestSavedTransactionWithoutTx
+	add(mk("types.SavedTransaction", (*types.SavedTransaction).ToBytes, (*types.SavedTransaction).FromBytes))
 	add(mk("types.BurntCoins", (*types.BurntCoins).ToBytes, (*types.BurntCoins).FromBytes))
 	add(mk("types.SavedEvent", (*types.SavedEvent).ToBytes, (*types.SavedEvent).FromBytes))
 	add(mk("types.ActivityMonitor", (*types.ActivityMonitor).ToBytes, (*types.ActivityMonitor).FromBytes))
